@@ -1,6 +1,17 @@
 """Per-property manifest entries. Only properties with a working check appear in CHECKS."""
 
 CHECKS = {
+    "C02": {
+        "level": "exploration",
+        "technique": "exhaustive pipeline enumeration + hypothesis expression spellings; reference composition with tagging (non-commuting) filters, native eval",
+        "text": ("All local filter lists of length <=2 (quick) / <=3 (thorough) over 8 representative filters x 6 default_filters x "
+                 "5 page expression_filter settings are rendered and compared with local(P'(D'(value))) computed by an "
+                 "independent reference; hypothesis adds value-expression spellings that contain | } # quotes, brackets, "
+                 "comments and newlines, filter calls, attribute filters, buffer_filters, and the filter= sites of defs, blocks "
+                 "and <%text>. The small configuration space is swept; expression spellings are sampled."),
+        "note": ("Trusted: markupsafe.escape as the meaning of h; the other builtins are re-implemented from filtering.rst. "
+                 "User callables that shadow builtin flag names are out of scope."),
+    },
     "C01": {
         "level": "exploration",
         "technique": "exhaustive token-string sweep + hypothesis documents; parse-tree-to-source accounting round trip, by-construction expected output, CPU budget",
